@@ -375,7 +375,8 @@ PROPS = {
                    "iterator (the functions use `digits` only through the Iterator protocol), `for digit in iter.by_ref()` / `for digit in iter` are written as their definition `while let Some(d) = iter.next()`, "
                    "`for limb in &mut result.limbs` -> `.iter_mut()`, `#[verifier::truncate]` on `carry as u64`; vstd's specification of slice::Iter::next is trusted",
         technique="deductive contract (Verus, all widths/bases) for the digit step + Kani bounded contract harnesses for parsing",
-        units=["core", "basics", "kernels", "spigot", "fmt_consts", "frombase"],
+        units=["core", "basics", "kernels", "spigot", "fmt_consts", "frombase",
+               "div_small"],   # the digit step divides by the base through div_nx1
         kani=dict(features=None, quick=hs("c09") + fmt_hs(True), thorough=hs("c09") + fmt_hs(False), bounds="see module headers of kani/src/c09.rs and c09f.rs (formatting: BOUNDED, one concrete value per harness)"),
         explanation="invariant of Knuth's algorithm S over the reversed limb iterator: processed high limbs hold the quotient, remainder < base",
         trusted=COMMON_TRUST,
@@ -390,7 +391,9 @@ PROPS = {
         level_note="ASSUMED: one memory-layout fact in mul_mod (normalisation N19: the raw-pointer reinterpretation of `[[u64; 2]; LIMBS]` as a limb slice is replaced by a call whose contract says element 2i+j is store[i][j]); "
                    "operators >=, %=, -=, >>=, /, *, + on Uint (C20); the conversion plumbing inside LehmerMatrix::from/apply (see C12; the matrix construction itself is proved); precondition BITS <= (usize::MAX - 63) / 2 (2*BITS is computed)",
         technique="deductive contracts (Verus, all widths) + Kani at tiny widths as counterexample source",
-        units=["core", "basics", "add", "modular", "gcdext", "gcdw", "lehmer", "jebelean"],
+        units=["core", "basics", "add", "modular", "gcdext", "gcdw", "lehmer", "jebelean",
+               # callees whose contracts the modular functions rely on: the wide product (mul_mod) and the division chain (reduce_mod, mul_mod, inv_mod)
+               "kernels", "addnx1", "addmul", "addmul_n", "mul", "div_small", "knuth", "divd", "divw"],
         kani=dict(features=None, quick=hs("c10", None, r"gcd|lcm"), thorough=hs("c10", None, r"gcd|lcm"), bounds="tiny widths (2-8 bits) and reduced add_mod at 64..192 bits, see kani/src/c10.rs"),
         explanation="postconditions over val() with vstd's modular-arithmetic lemma library; inv_mod: ghost cofactor magnitudes T0 <= T1 with T1*a + T0*b = m, a = +-T0*n + ka*m, stored cofactors = signed values mod 2^BITS",
         trusted=COMMON_TRUST,
@@ -409,7 +412,9 @@ PROPS = {
                    "used in the loops (>=, /, *, -, %=, >>: units forward / forward_shift + the proved inherent methods), u128::leading_zeros facts (Kani full domain), the derived == on Matrix; compose() (unused by from) is not covered. "
                    "lcm uses a declared rewrite of Option::unwrap_or_default to unwrap_or(<Uint as Default>::default()), with Default::default extracted and proved to be ZERO. Kani enumerations at 3-4 bits serve as counterexample source",
         technique="deductive contracts (Verus, all widths and all operand sizes) + Kani enumeration at tiny widths as counterexample source",
-        units=["core", "gcd", "gcdext", "gcdw", "lehmer", "jebelean"],
+        units=["core", "gcd", "gcdext", "gcdw", "lehmer", "jebelean",
+               # callees: the division chain (Euclidean steps, lcm) and multiplication (Lehmer apply, lcm)
+               "basics", "kernels", "addnx1", "addmul", "addmul_n", "mul", "div_small", "knuth", "divd", "divw"],
         kani=dict(features=None, quick=hs("c10", r"gcd|lcm") + hs("core_specs", r"u128_leading"), thorough=hs("c10", r"gcd|lcm") + hs("core_specs", r"u128_leading"), bounds="3-4 bits, all pairs"),
         explanation="gcd: invariant gcd(a, b) = gcd(a0, b0), a >= b; decreases b. gcd_extended: a = S0*A + T0*B, b = S1*A + T1*B over the integers, stored s/t = S/T mod 2^BITS. from_u64_prefix: a sliding window of four "
                     "consecutive prefix remainders and cofactor pairs in one of two orientations (lemma_win_step), cofactors < 2^32 from the inverse identities yn*r3 + y3*rn = a0; Jebelean: with aa = a0*2^k + ta, "
